@@ -3,7 +3,7 @@
    hand-written model of Model/Serve.v computes.  Every theorem about `serve` therefore is a theorem about the
    translated source. *)
 Require Import Base.Bytes Gen.Tables Model.Util Model.Headers Model.Methods Model.Origins Model.Pattern Model.Radix
-  Model.Config Model.CfgRt Model.Serve Model.MwRt Gen.MwSrc.
+  Model.Netip Model.CfgErrors Model.Config Model.CfgRt Model.Serve Model.Mw Model.MwRt Gen.MwSrc.
 Open Scope bool_scope.
 
 Ltac split_ifs :=
@@ -106,4 +106,42 @@ Proof.
       destruct (handle_preflight ic pre (r_hdrs r) org acrm debug) as [h s]. reflexivity.
     + rewrite go_handleCORSActual_eq. reflexivity.
   - rewrite Bool.andb_false_r. rewrite go_handleCORSActual_eq. reflexivity.
+Qed.
+
+(* ---- the four state-touching methods, sequentially: the translated bodies are the steps of Model/Mw.v ---- *)
+Theorem go_NewMiddleware_eq : forall ace ip6 psl c, go_NewMiddleware ace ip6 psl c = mw_new ace ip6 psl c.
+Proof.
+  intros. unfold go_NewMiddleware, mw_new, newInternalConfig2, zero_mw.
+  destruct (new_internal_config ace ip6 psl c); reflexivity.
+Qed.
+
+Theorem go_Reconfigure_eq : forall ace ip6 psl st c,
+  go_Reconfigure ace ip6 psl st c = step ace ip6 psl st (OReconfigure c).
+Proof.
+  intros ace ip6 psl [ic dbg] [c|]; unfold go_Reconfigure, step, newInternalConfig2; cbn [fst snd is_some andb].
+  - destruct (new_internal_config ace ip6 psl c); reflexivity.
+  - reflexivity.
+Qed.
+
+Theorem go_SetDebug_eq : forall ace ip6 psl st b,
+  step ace ip6 psl st (OSetDebug b) = (go_SetDebug st b, None).
+Proof. intros ace ip6 psl [[ic|] dbg] b; reflexivity. Qed.
+
+Theorem go_Config_eq : forall st, go_Config st = mw_config st.
+Proof. intros [[ic|] dbg]; reflexivity. Qed.
+
+(* any history of calls: the translated methods drive the state exactly as Model/Mw.v's [run] does *)
+Definition go_step (ace : bytes -> bool) (ip6 : bytes -> ipres) (psl : bytes -> bool) (st : mstate) (o : op) : mstate :=
+  match o with
+  | OReconfigure c => fst (go_Reconfigure ace ip6 psl st c)
+  | OSetDebug b => go_SetDebug st b
+  end.
+
+Theorem go_run_eq : forall ace ip6 psl ops st,
+  fold_left (go_step ace ip6 psl) ops st = run ace ip6 psl st ops.
+Proof.
+  intros ace ip6 psl ops. unfold run. induction ops as [|o ops IH]; intros st; [reflexivity|].
+  cbn [fold_left]. rewrite IH. f_equal. destruct o as [c|b]; unfold go_step.
+  - rewrite go_Reconfigure_eq. reflexivity.
+  - rewrite go_SetDebug_eq. reflexivity.
 Qed.
